@@ -10,10 +10,19 @@
 #ifndef C08_MAXOFF
 #define C08_MAXOFF VC_MAXOBJ
 #endif
+/* Functions that are not callees of other shim functions are byte-wise and never called with interior
+ * pointers by the shim itself; a symbolic offset makes their proofs 5-10x slower for no additional insight,
+ * so their units sweep a few concrete offsets instead ('params': {'C08_FIXOFF': [0, 3]}: object start =
+ * under-reads leave the object; 3 = interior, misaligned pointer). */
+#ifdef C08_FIXOFF
+#define C08_OFF_OK(off) ((off) == C08_FIXOFF)
+#else
+#define C08_OFF_OK(off) ((off) <= C08_MAXOFF)
+#endif
 
 /* char *p: string operand, p[L] == 0 is the last byte of the object, earlier NULs allowed */
 #define C08_STRING(p, off, L, content)                                  \
-    __CPROVER_assume((off) <= C08_MAXOFF && (L) < VC_MAXOBJ);           \
+    __CPROVER_assume(C08_OFF_OK(off) && (L) < VC_MAXOBJ);           \
     char *p##_base = NEW_OBJ((off) + (L) + 1);                          \
     FILL(p##_base, (off) + (L) + 1, content);                           \
     char *p = p##_base + (off);                                         \
@@ -21,7 +30,7 @@
 
 /* uchar *p: block operand of exactly n bytes */
 #define C08_BLOCK(p, off, n, content)                                   \
-    __CPROVER_assume((off) <= C08_MAXOFF && (n) <= VC_MAXOBJ);          \
+    __CPROVER_assume(C08_OFF_OK(off) && (n) <= VC_MAXOBJ);          \
     uchar *p##_base = NEW_OBJ((off) + (n));                             \
     FILL(p##_base, (off) + (n), content);                               \
     uchar *p = p##_base + (off)
